@@ -143,6 +143,12 @@ def gen_history(rng):
 def gen(rng, tier):
     n_hist, n_ref = (400, 150) if tier == "quick" else (6000, 2000)
     cases = [gen_history(rng) for _ in range(n_hist)]
+    # a quarter of the histories present some programs in explicitly curried form
+    # ((f a) b): Function objects whose head is itself a Function
+    for c in cases:
+        if rng.random() < 0.25:
+            ops = c["data"][2]
+            c["curry"] = [k for k, o in enumerate(ops) if o[0] == 0 and rng.random() < 0.5]
     for _ in range(n_ref):
         var_types = rng.choice(VAR_TYPES)
         p = P.gen_prog(rng, rng.choice(TARGETS), rng.randint(1, 5), ALL_PRIMS, var_types)
@@ -229,6 +235,13 @@ def describe(case, mo):
 
 
 def shrink(case):
+    for c in _shrink(case):
+        if "curry" in case and c["kind"] == "history":
+            c["curry"] = list(range(len(c["data"][2])))
+        yield c
+
+
+def _shrink(case):
     if case["kind"] == "ref":
         p, inp = case["data"]
         if p[0] == 1:
